@@ -616,6 +616,44 @@ func C19(run *hx.Run) {
 		}
 	}
 
+	// (b4) quoted column names that look like syntax: `SELECT "<name>" FROM t` selects that one column, as
+	// the native Select(t, cb, name) does - also when the name is `*`
+	{
+		qp := filepath.Join(dir, "oddnames.sqlite")
+		names := []string{"*", "select", "a b", "from", "t.*", "1"}
+		var defs []string
+		for _, n := range names {
+			defs = append(defs, `"`+n+`"`)
+		}
+		if err := o.Exec(qp, "CREATE TABLE t("+strings.Join(defs, ", ")+")", "INSERT INTO t VALUES(1,2,3,4,5,6),(11,12,13,14,15,16)"); err == nil {
+			if qsq, err := gosql.Open("sqlittle", qp); err == nil {
+				if ndb, err := sqlittle.Open(qp); err == nil {
+					for _, n := range names {
+						want, werr, _ := collectSelect(ndb, "t", []string{n})
+						if werr != nil {
+							run.See("odd_column_name", fmt.Sprintf("%q: native select refuses: %s", n, clip(werr.Error(), 40)))
+							continue
+						}
+						got, cols, gerr := sqlRows(qsq, context.Background(), `SELECT "`+n+`" FROM t`)
+						run.Eval(1)
+						run.Distinct("odd-column-name/" + n)
+						if gerr != nil {
+							run.See("odd_column_name", fmt.Sprintf("%q: driver refuses: %s", n, clip(gerr.Error(), 40)))
+							continue
+						}
+						if len(cols) != 1 || diffRows(want, got) != "" {
+							run.Violation(fmt.Sprintf("C19/quoted-column-name/%s", n), fmt.Sprintf("table t with a column named %q: SELECT \"%s\" FROM t through database/sql returns columns %q (%d rows, first %v); the native Select of that column returns 1 column, first row %v", n, n, cols, len(got), firstRow(got), firstRow(want)), nil)
+						} else {
+							run.See("odd_column_name", fmt.Sprintf("%q: equal", n))
+						}
+					}
+					ndb.Close()
+				}
+				qsq.Close()
+			}
+		}
+	}
+
 	// (c) close / cancel after every k
 	checkClean := func(key, what string) {
 		if !waitNoProducer() {
@@ -809,4 +847,11 @@ func c19Damaged(run *hx.Run, path, kind string, nrows int) {
 		}
 		run.See("damaged_outcome", kind+"/damage-not-on-path")
 	}
+}
+
+func firstRow(rows []hx.Row) string {
+	if len(rows) == 0 {
+		return "<no rows>"
+	}
+	return hx.RowString(rows[0])
 }
